@@ -8,7 +8,7 @@ Inline:        ("text", words) | ("em", inls) | ("strong", inls) | ("code", s) |
 """
 NO_ESC = [False]      # set by callers that need punctuation-free text (C13)
 WORDS = ["alpha", "beta", "gamma", "delta", "omega", "foo", "bar", "baz", "one", "two", "red", "blue", "Xy", "Q"]
-URLS = ["/u", "/path/to", "http://x.y/z", "#frag", "rel.html"]
+URLS = ["/u", "/path/to", "http://x.y/z", "#frag", "rel.html", "x(y", "/wiki/page(topic)", "q(", "/a)b"]
 ESC = list("*_`[]<>#\\!()")
 
 
@@ -62,6 +62,10 @@ def gen_inlines(rng, depth=0, in_link=False, in_em=False, in_strong=False, allow
         else:
             node = ("text", gen_words(rng))
         out.append(node)
+        if node[0] in ("link", "image") and not in_link and rng.random() < 0.25:
+            # another link / code span directly behind it, no blank between
+            out.append(("adj",))
+            out.append(rng.choice([("link", [("text", gen_words(rng, 1, 2))], rng.choice(URLS), None), ("code", gen_words(rng, 1, 1) + ")")]))
         if allow_breaks and depth == 0 and i < n - 1 and rng.random() < 0.2:
             out.append(("hard",) if rng.random() < 0.4 else ("soft",))
     # a break must be followed by plain text (the next line must not look like a block start)
@@ -113,8 +117,12 @@ def gen_block(rng, depth, maxdepth, plain=False, first_in_item=False):
         return ("hr",)
     if r < 0.70:
         k = rng.random()
-        if k < 0.35:
+        if k < 0.25:
             return ("html", ["<div>", gen_words(rng), "</div>"])
+        if k < 0.35:
+            # tag names are case-insensitive
+            t = rng.choice(["DIV", "Table", "UL", "Section", "BLOCKQUOTE"])
+            return ("html", ["<%s>%s" % (t, gen_words(rng)), gen_words(rng), "</%s>" % t])
         if k < 0.5:
             return ("html", ["<table>", "<tr><td>" + gen_words(rng) + "</td></tr>", "</table>"])
         # the other start conditions of CommonMark HTML blocks end at their own closing marker, not at a blank line;
@@ -186,6 +194,13 @@ def gen_blocks(rng, depth=0, maxdepth=3, plain=False):
 
 
 # ---------------------------------------------------------------- printing
+def p_dest(url, lay):
+    """a destination with parentheses is written in angle brackets or with every parenthesis escaped"""
+    if "(" in url or ")" in url:
+        return "<" + url + ">" if lay.em == "*" else url.replace("(", "\\(").replace(")", "\\)")
+    return url
+
+
 def p_inlines(inls, lay):
     out = []
     prev_break = True
@@ -194,6 +209,9 @@ def p_inlines(inls, lay):
         if k in ("hard", "soft"):
             out.append(lay.hard if k == "hard" else "\n")
             prev_break = True
+            continue
+        if k == "adj":
+            prev_break = True          # the next node follows without a blank
             continue
         if not prev_break:
             out.append(" ")
@@ -208,10 +226,11 @@ def p_inlines(inls, lay):
             out.append("`" + node[1] + "`")
         elif k == "link":
             t = (" " + lay.title_q + node[3] + lay.title_q) if node[3] else ""
-            out.append("[" + p_inlines(node[1], lay) + "](" + node[2] + t + ")")
+            out.append("[" + p_inlines(node[1], lay) + "](" + p_dest(node[2], lay) + t + ")")
         elif k == "image":
             t = (" " + lay.title_q + node[3] + lay.title_q) if node[3] else ""
-            out.append("![" + node[1] + "](" + node[2] + t + ")")
+            out.append("![" + node[1] + "](" + p_dest(node[2], lay) + t + ")")
+
         elif k == "auto":
             out.append("<" + node[1] + ">")
         elif k == "ihtml":
@@ -289,6 +308,9 @@ def e_inlines(inls):
         if k in ("hard", "soft"):
             out.append({"type": "linebreak" if k == "hard" else "softbreak"})
             prev_break = True
+            continue
+        if k == "adj":
+            prev_break = True          # the next node follows without a blank
             continue
         if not prev_break:
             out.append({"type": "text", "raw": " "})
